@@ -579,7 +579,42 @@ def differential(ck, b, exe, inv, sizes, suspects):
                          {"kind": "differential", "config": cfg, "N": N, "k": ks, "first_offset": off, "failing": [[f[0], f[1]] for f in failing]}, key=key)
         ck.coverage.setdefault("differential", []).append({"config": cfg["name"], "N": N, "plans": [p[1] for p in plans[2:]], "failing": [[f[0], f[1]] for f in failing],
                                                            "mask": [list(m) for m in mask]})
+    ev += natural_end(ck, exe, base, inv, sizes)
     return ev, sigs, samples
+
+
+def natural_end(ck, exe, base, inv, sizes):
+    """a run that reaches its end time, restarted from its last dump, must not take another step: the dump stays the same
+    (outside the timers and the re-drawn seed) and so do the snapshot files"""
+    d = os.path.join(base, "natural_end")
+    shutil.rmtree(d, ignore_errors=True)
+    os.makedirs(d)
+    for f in os.listdir(CONFIGS):
+        shutil.copy(os.path.join(CONFIGS, f), d)
+    txt = open(os.path.join(CONFIGS, "hydro.param")).read().replace("total time: 0.02 s", "total time: 0.0001 s")
+    open(os.path.join(d, "end.param"), "w").write(txt)
+    rc1, out1 = run_sim(exe, d, "end.param", 100000)
+    p = os.path.join(d, "restart.dump")
+    if rc1 != 0 or not os.path.exists(p):
+        ck.breaks.append("natural-end run failed (exit %d)" % rc1)
+        shutil.rmtree(d, ignore_errors=True)
+        return 0
+    A = open(p, "rb").read()
+    steps1 = len(re.findall(r"Starting hydro step \d+", out1))
+    snaps1 = {f: os.path.getsize(os.path.join(d, f)) for f in sorted(os.listdir(d)) if f.endswith(".hdf5")}
+    rc2, out2 = run_sim(exe, d, "end.param", 100000, restart=True)
+    steps2 = len(re.findall(r"Starting hydro step \d+", out2))
+    B = open(p, "rb").read() if os.path.exists(p) else b""
+    timers, seed = parse_prefix(inv, sizes, A)
+    mask = list(timers) + ([seed] if seed else [])
+    dr = outside(diff_ranges(A, B), mask) if len(A) == len(B) else [(0, abs(len(A) - len(B)))]
+    ck.coverage["natural_end"] = {"steps_before": steps1, "steps_after_restart": steps2, "dump_bytes": len(A), "bytes_differing_outside_mask": sum(e - s for s, e in dr)}
+    if rc2 != 0 or steps2 > 0 or dr:
+        ck.violation("C09 fails on the real binary: a hydro run that reached its end time after %d steps, restarted from its last dump, %s (exit %d; %d bytes of the dump differ outside the timers/seed)"
+                     % (steps1, ("executes %d more step(s) beyond the end time" % steps2) if steps2 else "does not reproduce its final dump", rc2, sum(e - s for s, e in dr)),
+                     {"kind": "natural_end", "steps_before": steps1, "steps_after": steps2}, key={"kind": "restart_after_last_step"})
+    shutil.rmtree(d, ignore_errors=True)
+    return 1
 
 
 # ----------------------------------------------------------------------------------------------------------------
@@ -689,6 +724,15 @@ def run(ck):
 
 
 def replay(ck, rp):
+    if rp.get("replay", {}).get("kind") == "natural_end":
+        inv, meta, sizes = regenerate()
+        okb, logb = vf.repo_ninja(["CMacIonize"])
+        base = os.path.join(ck.scratch, "runs")
+        os.makedirs(base, exist_ok=True)
+        natural_end(ck, os.path.join(vf.REPOBUILD, "rundir", "CMacIonize"), base, inv, sizes)
+        bad = [v for v in ck.violations if v["key"].get("kind") == "restart_after_last_step"]
+        print("REPLAY:", bad[0]["what"] if bad else "property holds on this input")
+        return 1 if bad else 0
     r = rp["replay"]
     d = ck.scratch
     kind = r.get("kind")
